@@ -3,6 +3,9 @@ C10 — Time lookups return the first live message at or after the given time.
 -/
 import Klev.Proofs.IndexSearch
 import Klev.Proofs.TimeOK
+import Klev.Proofs.ExtRun
+import Klev.Proofs.ExtReads
+import Klev.Proofs.ExtInv
 namespace Klev.C10
 
 /-- **Refinement.** On every log state satisfying the invariant whose live message times
@@ -35,8 +38,174 @@ theorem index_time_spec (items : List Item) (ts : Int) (hs : SortedTs items) :
 
 example : Index.time [⟨1, 8, 5, 0⟩, ⟨3, 50, 7, 0⟩, ⟨5, 90, 7, 0⟩, ⟨9, 130, 9, 0⟩] 6 = .ok 50 := by decide
 
+/-- `GetByTime` is a read: it only loads indexes (invariant, content and options kept), and
+the loads keep `TimesInv`. -/
+theorem getByTime_keeps (l : Log) (hinv : Inv l) (ht : TimesInv l) (hm : Spec.Monotone (abs l))
+    (hfab : FirstAtBase l) (t : Int) :
+    Loaded l (l.getByTime t).1 ∧ TimesInv (l.getByTime t).1 :=
+  ⟨Klev.getByTime_loaded l hinv ht hm hfab t, Klev.getByTime_timesInv l hinv ht hm hfab t⟩
+
+/-! ### The side conditions are invariants of the API
+
+`getByTime_ok` takes `TimesInv`, `Monotone` and `FirstAtBase` as hypotheses. Below they are
+discharged on every state a history reaches from an empty directory, under a hypothesis on
+the *publish times of the history* (`PubTimesOK` / `TimesOKRun`; `PubMono` is the version
+that mentions the operation list only). This is the property's quantifier "for all C01
+histories whose times are non-decreasing". -/
+
+/-- `FirstAtBase` holds along every history, unconditionally. -/
+theorem firstAtBase_run (l : Log) (hinv : Inv l) (hf : FirstAtBase l) (ops : List Op) :
+    FirstAtBase (runOps l ops) :=
+  Klev.firstAtBase_run l hinv hf ops
+
+/-- Every API step keeps `Monotone`, when the published batch is sorted and at or after the
+writer's `nextTime`, 0 and every live time (`PubTimesOK`). -/
+theorem monotone_step (l : Log) (hinv : Inv l) (hm : Spec.Monotone (abs l)) (op : Op)
+    (hpub : PubTimesOK l op) : Spec.Monotone (abs (stepOp l op)) :=
+  Klev.monotone_step l hinv hm op hpub
+
+/-- Every API step keeps `TimesInv` under the same publish hypothesis (deletes, GC, reopens
+with index files removed / migrated / recovered included: "the answer does not depend on
+deletes or on index rebuilds"). -/
+theorem timesInv_step (l : Log) (hinv : Inv l) (hp : l.opts.params.times = true)
+    (hti : TimesInv l) (hm : Spec.Monotone (abs l)) (op : Op)
+    (hpar : OpParams l.opts.params op) (hpub : PubTimesOK l op) : TimesInv (stepOp l op) :=
+  Klev.timesInv_step l hinv hp hti hm op hpar hpub
+
+/-- `TimesInv` and `Monotone` hold along every history that keeps the index configuration
+and whose publishes satisfy `PubTimesOK`. -/
+theorem times_run (l : Log) (hinv : Inv l) (hp : l.opts.params.times = true) (hti : TimesInv l)
+    (hm : Spec.Monotone (abs l)) (ops : List Op) (hsame : SameParams l.opts.params ops)
+    (hok : TimesOKRun l ops) :
+    TimesInv (runOps l ops) ∧ Spec.Monotone (abs (runOps l ops)) :=
+  Klev.times_run l hinv hp hti hm ops hsame hok
+
+/-- **The refinement on reachable states.** After any history from an empty directory that
+keeps the index configuration and whose publishes satisfy `PubTimesOK`, for every query
+time: `GetByTime` returns the first live message whose time is not before `t`
+(`ErrNoIndex` without the time index). No `Inv` / `TimesInv` / `Monotone` / `FirstAtBase`
+hypothesis. -/
+theorem getByTime_ok_run (oo : OpenOpts) (ops : List Op) (hsame : SameParams oo.opts.params ops)
+    (t : Int) : ∀ l0, Log.open [] oo = .ok l0 → TimesOKRun l0 ops →
+    Spec.GetByTimeOK (runOps l0 ops).opts.params.times (abs (runOps l0 ops)) t
+      ((runOps l0 ops).getByTime t).2 :=
+  Klev.getByTime_ok_run oo ops hsame t
+
+/-- The time carry (the writer's `nextTime` and every live time are at most the high-water
+mark `hw` of the published times) is kept by every step of a history whose published times
+never decrease, and it gives the publish hypothesis `PubTimesOK`. -/
+theorem timeCarry_step (l : Log) (hinv : Inv l) (hp : l.opts.params.times = true)
+    (hti : TimesInv l) (hm : Spec.Monotone (abs l)) (hw : Int) (hc : TimeCarry l hw) (op : Op)
+    (hpar : OpParams l.opts.params op) (hmono : PubMonoOp hw op) :
+    PubTimesOK l op ∧ TimeCarry (stepOp l op) (hwNext hw op) :=
+  Klev.timeCarry_step l hinv hp hti hm hw hc op hpar hmono
+
+/-- A history whose published times never decrease (`PubMono`) satisfies `TimesOKRun`. -/
+theorem timesOKRun_of_pubMono (l : Log) (hinv : Inv l) (hp : l.opts.params.times = true)
+    (hti : TimesInv l) (hm : Spec.Monotone (abs l)) (hw : Int) (hc : TimeCarry l hw)
+    (ops : List Op) (hsame : SameParams l.opts.params ops) (hmono : PubMono hw ops) :
+    TimesOKRun l ops :=
+  Klev.timesOKRun_of_pubMono l hinv hp hti hm hw hc ops hsame hmono
+
+/-- **The property at its stated quantifier: monotone publish histories.** After any
+history from an empty directory that keeps the index configuration and whose *published*
+times are non-negative and never decrease — a condition on the operation list alone — for
+every query time, `GetByTime` returns the first live message whose time is not before `t`,
+whatever the segmentation, the deletes, the GC runs and the index rebuilds in between. -/
+theorem getByTime_ok_mono (oo : OpenOpts) (ops : List Op) (hsame : SameParams oo.opts.params ops)
+    (hmono : PubMono 0 ops) (t : Int) : ∀ l0, Log.open [] oo = .ok l0 →
+    Spec.GetByTimeOK (runOps l0 ops).opts.params.times (abs (runOps l0 ops)) t
+      ((runOps l0 ops).getByTime t).2 :=
+  Klev.getByTime_ok_mono oo ops hsame hmono t
+
+/-- The same with the lookups themselves inside the history (`OpX`; they change the state
+by loading indexes): all three lookups meet their specifications on every reachable state,
+under the publish hypothesis (asked only when the time index is configured). -/
+theorem lookups_ok_runX (oo : OpenOpts) (xs : List OpX) (hsame : SameParamsX oo.opts.params xs) :
+    ∀ l0, Log.open [] oo = .ok l0 → (oo.opts.params.times = true → TimesOKRunX l0 xs) →
+    (∀ key, Spec.GetByKeyOK (runX l0 xs).opts.params.keys (abs (runX l0 xs)) key
+      ((runX l0 xs).getByKey key).2) ∧
+    (∀ key off mc, Spec.ConsumeByKeyOK (runX l0 xs).opts.params.keys (abs (runX l0 xs)) key off mc
+      ((runX l0 xs).consumeByKey key off mc).2) ∧
+    (∀ t, Spec.GetByTimeOK (runX l0 xs).opts.params.times (abs (runX l0 xs)) t
+      ((runX l0 xs).getByTime t).2) :=
+  Klev.lookups_ok_runX oo xs hsame
+
+/-- **Monotone publish histories, lookups included**: the only conditions are on the
+operation list — reopens keep the index configuration and, when the time index is
+configured, published times are non-negative and never decrease. -/
+theorem lookups_ok_monoX (oo : OpenOpts) (xs : List OpX) (hsame : SameParamsX oo.opts.params xs)
+    (hmono : oo.opts.params.times = true → PubMonoX 0 xs) :
+    ∀ l0, Log.open [] oo = .ok l0 →
+    (∀ key, Spec.GetByKeyOK (runX l0 xs).opts.params.keys (abs (runX l0 xs)) key
+      ((runX l0 xs).getByKey key).2) ∧
+    (∀ key off mc, Spec.ConsumeByKeyOK (runX l0 xs).opts.params.keys (abs (runX l0 xs)) key off mc
+      ((runX l0 xs).consumeByKey key off mc).2) ∧
+    (∀ t, Spec.GetByTimeOK (runX l0 xs).opts.params.times (abs (runX l0 xs)) t
+      ((runX l0 xs).getByTime t).2) :=
+  Klev.lookups_ok_monoX oo xs hsame hmono
+
+/-! ### Why the quantifier is "non-decreasing *publish* times": a counterexample
+
+Monotone *live* messages are not enough; the publish history must be monotone — the
+writer's time carry survives Delete. Time index on. Publish one message with time 10, delete
+it (the head is emptied, the writer's `nextTime` stays 10), publish one message with time 7
+(`cxOps`). At the third step the batch is sorted, non-negative and at or after every live
+time (there is none); the content stays `Monotone`; yet the stamped index timestamp is
+`max 7 10 = 10`, `TimesInv` fails, and `GetByTime 8` violates its specification. -/
+
+/-- The counterexample starts from the log `Open` returns on an empty directory. -/
+theorem cx_start : Log.open [] cxOpen = .ok cxStart := Klev.cx_start
+
+/-- Before the last publish nothing is live, and the writer still remembers time 10. -/
+theorem cx_before : (abs (runOps cxStart (cxOps.take 2))).live = [] ∧
+    (runOps cxStart (cxOps.take 2)).wNextTime = 10 := Klev.cx_before
+
+/-- The live messages of the final state *are* monotone (there is exactly one). -/
+theorem cx_monotone : Spec.Monotone (abs (runOps cxStart cxOps)) := Klev.cx_monotone
+
+/-- The head's one record has time 7, its index item carries timestamp 10. -/
+theorem cx_index : (runOps cxStart cxOps).segs.map
+    (fun s => (s.recs.map (·.time), s.mem.map (·.map (·.ts)))) = [([7], some [10])] :=
+  Klev.cx_index
+
+/-- Hence `TimesInv` fails on a reachable state with monotone content. -/
+theorem cx_not_timesInv : ¬ TimesInv (runOps cxStart cxOps) := Klev.cx_not_timesInv
+
+/-- **Monotone live messages are not enough.** On this reachable state with `Monotone`
+content, `GetByTime 8` does *not* meet `Spec.GetByTimeOK`: it answers with the message of
+time 7 where the specification says "not found". The publish history is not monotone
+(10, then 7 — `cx_not_pubMono`), which is exactly what `getByTime_ok_mono` excludes. -/
+theorem cx_getByTime : ¬ Spec.GetByTimeOK true (abs (runOps cxStart cxOps)) 8
+    ((runOps cxStart cxOps).getByTime 8).2 := Klev.cx_getByTime
+
+/-- The counterexample history is not a monotone publish history (7 after 10), so it is
+outside the property's quantifier; the theorems above and the counterexample are
+consistent. -/
+theorem cx_not_pubMono : ¬ PubMono 0 cxOps := by
+  intro h
+  exact absurd (h.2.2.1.2 7 (by decide)) (by decide)
+
 end Klev.C10
 
 #print axioms Klev.C10.getByTime_ok
 #print axioms Klev.C10.derive_times
 #print axioms Klev.C10.index_time_spec
+#print axioms Klev.C10.getByTime_keeps
+#print axioms Klev.C10.firstAtBase_run
+#print axioms Klev.C10.monotone_step
+#print axioms Klev.C10.timesInv_step
+#print axioms Klev.C10.times_run
+#print axioms Klev.C10.getByTime_ok_run
+#print axioms Klev.C10.timeCarry_step
+#print axioms Klev.C10.timesOKRun_of_pubMono
+#print axioms Klev.C10.getByTime_ok_mono
+#print axioms Klev.C10.lookups_ok_runX
+#print axioms Klev.C10.lookups_ok_monoX
+#print axioms Klev.C10.cx_start
+#print axioms Klev.C10.cx_before
+#print axioms Klev.C10.cx_monotone
+#print axioms Klev.C10.cx_index
+#print axioms Klev.C10.cx_not_timesInv
+#print axioms Klev.C10.cx_getByTime
+#print axioms Klev.C10.cx_not_pubMono
